@@ -72,6 +72,7 @@ type Engine struct {
 	arena     []Val
 	sp        int
 	cellSeq   uint32
+	syncSide  map[*Cell]*Cell
 	// shared-state monitor (rt.H.Go): phase > 0 while a pipeline runs
 	goPhase   int
 	goBarrier uint32
@@ -901,11 +902,19 @@ func (e *Engine) storePtr(p Ptr, v Val) {
 
 // ---------------------------------------------------------------- frames
 
+type deferred struct {
+	call *ssa.CallCommon
+	fn   Val   // evaluated function value (nil for static callee / invoke)
+	recv Val   // receiver for invoke mode
+	args []Val // evaluated arguments
+}
+
 type frame struct {
-	fn   *ssa.Function
-	fi   *fnInfo
-	env  []Val
-	prev *ssa.BasicBlock
+	fn     *ssa.Function
+	fi     *fnInfo
+	env    []Val
+	prev   *ssa.BasicBlock
+	defers []deferred
 }
 
 func (e *Engine) get(fr *frame, v ssa.Value) Val {
@@ -1219,6 +1228,27 @@ func (e *Engine) doCall(fr *frame, c *ssa.CallCommon) Val {
 	return e.callValue(e.get(fr, c.Value), args)
 }
 
+func (e *Engine) runDeferred(d deferred) {
+	c := d.call
+	switch {
+	case c.IsInvoke():
+		recv, ok := d.recv.(Iface)
+		if !ok || recv.typ == nil {
+			e.goPanic("runtime error: invalid memory address or nil pointer dereference (deferred nil interface call)")
+		}
+		e.call(e.lookupMethod(recv.typ, c.Method), append([]Val{recv.v}, d.args...), nil)
+	case d.fn != nil:
+		e.callValue(d.fn, d.args)
+	default:
+		switch f := c.Value.(type) {
+		case *ssa.Function:
+			e.call(f, d.args, nil)
+		case *ssa.Builtin:
+			e.builtin(f.Name(), d.args, c)
+		}
+	}
+}
+
 func (e *Engine) callValue(f Val, args []Val) Val {
 	switch f := f.(type) {
 	case *ssa.Function:
@@ -1406,7 +1436,28 @@ func roundupsize(n int) int {
 
 func (e *Engine) exec(fr *frame, in ssa.Instruction) {
 	switch x := in.(type) {
-	case *ssa.DebugRef, *ssa.RunDefers:
+	case *ssa.DebugRef:
+	case *ssa.Defer:
+		// arguments are evaluated now, the call runs at RunDefers (normal returns only;
+		// recover is not modelled: a Go panic ends the path as a finding anyway)
+		d := deferred{call: &x.Call}
+		if x.Call.IsInvoke() {
+			d.recv = e.get(fr, x.Call.Value)
+		} else if _, static := x.Call.Value.(*ssa.Function); !static {
+			if _, builtin := x.Call.Value.(*ssa.Builtin); !builtin {
+				d.fn = e.get(fr, x.Call.Value)
+			}
+		}
+		for _, a := range x.Call.Args {
+			d.args = append(d.args, e.get(fr, a))
+		}
+		fr.defers = append(fr.defers, d)
+	case *ssa.RunDefers:
+		for len(fr.defers) > 0 {
+			d := fr.defers[len(fr.defers)-1]
+			fr.defers = fr.defers[:len(fr.defers)-1]
+			e.runDeferred(d)
+		}
 	case *ssa.Alloc:
 		e.set(fr, x, Ptr{c: e.newCell(x.Type().(*types.Pointer).Elem())})
 	case *ssa.Store:
@@ -1481,6 +1532,11 @@ func (e *Engine) exec(fr *frame, in ssa.Instruction) {
 			e.unsupported("Index on %T", a)
 		}
 	case *ssa.MakeMap:
+		if x.Reserve != nil {
+			if rt, ok := e.get(fr, x.Reserve).(*Term); ok && !rt.IsConst() {
+				e.allocGuard(e.tf.Resize(rt, 64, true), 16)
+			}
+		}
 		e.set(fr, x, &MapObj{epoch: e.epoch, kt: x.Type().Underlying().(*types.Map).Key()})
 	case *ssa.MapUpdate:
 		m, ok := e.get(fr, x.Map).(*MapObj)
